@@ -251,6 +251,18 @@ func overlapInfo(ops []kop) (anyOverlap, writeOverlap bool, shape uint64) {
 // e.g. a fetch that re-populates a cache), else "no-overlap" (a purely sequential anomaly on this
 // key: an acknowledged write is not seen - or seen again - by a later call although no call on
 // the same key ran beside it).
+// pairClass puts the racing pair into the signature: "no-overlap" stays a class of its own, any
+// overlapping pair is filed under "concurrent/<pair>", so that an open finding about unordered
+// concurrent receive/remove fan-out can be keyed by "…/concurrent/*" without also covering the
+// purely sequential anomalies.
+func pairClass(min, full []kop) string {
+	p := racePair(min, full)
+	if p == "no-overlap" {
+		return p
+	}
+	return "concurrent/" + p
+}
+
 func racePair(min, full []kop) string {
 	isRead := func(o kop) bool { return o.W == 0 || o.W == 4 || o.W == 5 }
 	wname := func(o kop) string {
